@@ -7,7 +7,10 @@ A case = a set of subsystems + one or two *spellings* of the same wiring (or one
 Each spelling is one call of `interconnect`; it is tokenised here with the same regular
 expressions `_parse_spec` / `_find_signals` use and sent to the model, and executed on the real
 code.  Compared: raises-or-not, the three maps (exactly), the A, B, C, D of the resulting
-LinearICSystem (tolerance: the code differentiates numerically)."""
+LinearICSystem (tolerance: the code differentiates numerically); for a share of the cases also
+what the resulting system computes: `dynamics` / `output` at points, `linearize` at a point and a
+discrete-time `input_output_response`, with the state / input held as Python ints, tuples,
+integer arrays or floats (model: `Wiring.eval`, `IC.dtTraj`; driver requests `ev` / `tr`)."""
 import re
 import warnings
 from fractions import Fraction
@@ -26,7 +29,20 @@ TOL = Fraction(1, 10 ** 8)
 # JSON encoding of Python call arguments: tuples as {"t": [...]}
 # ----------------------------------------------------------------------------
 
+class NpNum:
+    """a NumPy scalar inside a call argument (a gain read out of an array: `F[i, j]`);
+    JSON form {"np": dtype name, "v": value}"""
+
+    def __init__(self, dtype, v):
+        self.dtype, self.v = dtype, v
+
+    def value(self):
+        return np.dtype(self.dtype).type(self.v)
+
+
 def enc(x):
+    if isinstance(x, NpNum):
+        return {"np": x.dtype, "v": x.v}
     if isinstance(x, tuple):
         return {"t": [enc(v) for v in x]}
     if isinstance(x, list):
@@ -36,6 +52,8 @@ def enc(x):
 
 def dec(x):
     if isinstance(x, dict):
+        if "np" in x:
+            return np.dtype(x["np"]).type(x["v"])
         return tuple(dec(v) for v in x["t"])
     if isinstance(x, list):
         return [dec(v) for v in x]
@@ -221,16 +239,35 @@ def sys_toks(s):
     return "%s L %d %s %s %s %s" % (head, n, mat_toks(A), mat_toks(B), mat_toks(C), mat_toks(D))
 
 
+def pool_toks(pool):
+    return "%d %s" % (len(pool), " ".join(tok(Fraction(v)) for v in pool))
+
+
+def ev_toks(ev):
+    """evaluation requests: `ev` k points (state pool, input pool), `tr` a discrete-time run"""
+    if not ev:
+        return ""
+    out = []
+    if ev.get("pts"):
+        out.append("ev %d" % len(ev["pts"]))
+        out.extend("%s %s" % (pool_toks(p["x"]), pool_toks(p["u"])) for p in ev["pts"])
+    if ev.get("traj"):
+        tr = ev["traj"]
+        out.append("tr %d %s" % (len(tr["U"]), pool_toks(tr["x0"])))
+        out.extend(pool_toks(u) for u in tr["U"])
+    return " " + " ".join(out)
+
+
 def call_line(systems, call):
     if "op" in call:
-        return " ".join(("ic op " + op_toks(systems, call["op"])[0]).split())
+        return " ".join(("ic op " + op_toks(systems, call["op"])[0] + ev_toks(call.get("ev"))).split())
     parts = ["ic %d" % len(systems)]
     parts.extend(sys_toks(s) for s in systems)
     parts.append(conns_toks(dec(call.get("connections"))))
     parts.append(iolist_toks(dec(call.get("inplist")), dec(call.get("inputs"))))
     parts.append(iolist_toks(dec(call.get("outlist")), dec(call.get("outputs"))))
     parts.append("1" if call.get("add_unused") else "0")
-    return " ".join(" ".join(parts).split())
+    return " ".join((" ".join(parts) + ev_toks(call.get("ev"))).split())
 
 
 # ----------------------------------------------------------------------------
@@ -356,7 +393,9 @@ def op_cyclic(systems, t):
     kids = [t[k] for k in ("a", "b") if k in t]
     if any(op_cyclic(systems, k) for k in kids):
         return True
-    return t["o"] == "fb" and not (op_dzero(systems, t["a"]) or op_dzero(systems, t["b"]))
+    # (a feedback sign of 0 connects nothing back: no loop)
+    return t["o"] == "fb" and Fraction(t["sign"]) != 0 and \
+        not (op_dzero(systems, t["a"]) or op_dzero(systems, t["b"]))
 
 
 def op_nodes(t):
@@ -370,7 +409,16 @@ def op_nodes(t):
 # implementation side
 # ----------------------------------------------------------------------------
 
-def build_sys(s):
+def dt_value(dt):
+    """timebase of the subsystems of a case: 0 continuous, True, or a sampling time"""
+    if dt is True or dt in (0, None):
+        return dt
+    q = Fraction(dt)
+    return int(q) if q.denominator == 1 else float(q)
+
+
+def build_sys(s, dt=0):
+    dkw = {"dt": dt_value(dt)} if dt else {}
     if "sj" in s:
         kw = {}
         if s["sj"].get("dimension") is not None:
@@ -390,10 +438,11 @@ def build_sys(s):
         def outf(t, x, u, params, C=C, D=D):
             return C @ np.atleast_1d(x) + D @ np.atleast_1d(u)
         if n == 0:
-            return ct.nlsys(None, outf, inputs=list(s["in"]), outputs=list(s["out"]), name=s["name"])
+            return ct.nlsys(None, outf, inputs=list(s["in"]), outputs=list(s["out"]), name=s["name"],
+                            **dkw)
         return ct.nlsys(upd, outf, inputs=list(s["in"]), outputs=list(s["out"]),
-                        states=n, name=s["name"])
-    return ct.ss(A, B, C, D, name=s["name"], inputs=list(s["in"]), outputs=list(s["out"]))
+                        states=n, name=s["name"], **dkw)
+    return ct.ss(A, B, C, D, name=s["name"], inputs=list(s["in"]), outputs=list(s["out"]), **dkw)
 
 
 def classify_exc(e):
@@ -419,11 +468,78 @@ def fmat(M, p=None, m=None):
     return [[str(fr(x)) for x in row] for row in np.asarray(M).reshape(p, m).tolist()]
 
 
+INT_T = ["int", "tuple", "i64", "i32"]
+FLT_T = ["float", "f64", "f32"]
+
+
+def num_arg(vals, typ):
+    """the vector `vals` (Fraction strings) as the caller holds it: a list / tuple of Python ints,
+    a list of Python floats, an integer or floating-point NumPy array"""
+    if typ == "int":
+        return [int(Fraction(v)) for v in vals]
+    if typ == "tuple":
+        return tuple(int(Fraction(v)) for v in vals)
+    if typ == "float":
+        return [float(Fraction(v)) for v in vals]
+    if typ in ("i64", "i32"):
+        return np.array([int(Fraction(v)) for v in vals], dtype={"i64": np.int64, "i32": np.int32}[typ])
+    return np.array([float(Fraction(v)) for v in vals], dtype={"f64": np.float64, "f32": np.float32}[typ])
+
+
+def pool_take(pool, n):
+    return [pool[i] if i < len(pool) else "0" for i in range(n)]
+
+
+def run_eval(T, ev):
+    """`dynamics` / `output` at the points, `linearize` at a point, a discrete-time
+    `input_output_response` — with the state / input held in the number type the case names"""
+    n, nin, nout = int(T.nstates), int(T.ninputs), int(T.noutputs)
+    res = {}
+    stage = "pts"
+    try:
+        if ev.get("pts"):
+            R, O = [], []
+            for p in ev["pts"]:
+                x, u = num_arg(pool_take(p["x"], n), p["xt"]), num_arg(pool_take(p["u"], nin), p["ut"])
+                R.append([str(fr(v)) for v in np.asarray(T.dynamics(0, x, u), dtype=float).reshape(n)])
+                O.append([str(fr(v)) for v in np.asarray(T.output(0, x, u), dtype=float).reshape(nout)])
+            res["rhs"] = [[R[k][i] for k in range(len(R))] for i in range(n)]
+            res["out"] = [[O[k][i] for k in range(len(O))] for i in range(nout)]
+        if ev.get("linpt") is not None:
+            stage = "linpt"
+            p = ev["pts"][ev["linpt"]]
+            x, u = num_arg(pool_take(p["x"], n), p["xt"]), num_arg(pool_take(p["u"], nin), p["ut"])
+            lin = T.linearize(x, u)
+            res["linpt"] = {"A": fmat(lin.A, n, n), "B": fmat(lin.B, n, nin),
+                            "C": fmat(lin.C, nout, n), "D": fmat(lin.D, nout, nin)}
+        if ev.get("traj") and nin > 0:
+            stage = "traj"
+            tr = ev["traj"]
+            N = len(tr["U"])
+            h = 1 if ev["dt"] is True else dt_value(ev["dt"])
+            Tv = np.arange(N) * h
+            cols = [pool_take(u, nin) for u in tr["U"]]
+            rows = [[cols[k][i] for k in range(N)] for i in range(nin)]
+            if tr["ut"] in ("int", "tuple", "float"):
+                U = [num_arg(r, "int" if tr["ut"] == "tuple" else tr["ut"]) for r in rows]
+            else:
+                U = np.array([num_arg(r, tr["ut"]) for r in rows])
+            X0 = num_arg(pool_take(tr["x0"], n), tr["xt"])
+            resp = ct.input_output_response(T, Tv, U, X0, squeeze=False)
+            res["Y"] = fmat(resp.outputs, nout, N)
+            if n > 0:
+                res["X"] = fmat(resp.states, n, N)
+    except Exception as e:  # noqa
+        return {"err": stage, "exc": type(e).__name__, "msg": norm_msg(e)}
+    return res
+
+
 def run_call(systems, call):
     try:
         with warnings.catch_warnings():
             warnings.simplefilter("ignore")
-            syss = [build_sys(s) for s in systems]
+            ev = call.get("ev")
+            syss = [build_sys(s, (ev or {}).get("dt", 0)) for s in systems]
             if "op" in call:
                 T = op_eval(syss, call["op"], call.get("via", "operator"))
                 if not isinstance(T, ct.InterconnectedSystem):
@@ -451,6 +567,8 @@ def run_call(systems, call):
             n = int(T.nstates)
             res["lin"] = {"n": n, "A": fmat(lin.A, n, n), "B": fmat(lin.B, n, T.ninputs),
                           "C": fmat(lin.C, T.noutputs, n), "D": fmat(lin.D, T.noutputs, T.ninputs)}
+            if ev:
+                res["ev"] = run_eval(T, ev)
             return res
     except Exception as e:  # noqa
         return {"err": classify_exc(e), "exc": type(e).__name__, "msg": norm_msg(e)}
@@ -483,6 +601,17 @@ def parse_out(line):
     if k == "lin":
         n = t.nat()
         res["lin"] = {"n": n, "A": read_mat(t), "B": read_mat(t), "C": read_mat(t), "D": read_mat(t)}
+    while not t.done():
+        k = t.next()
+        assert k in ("ev", "tr"), k
+        res.setdefault("ev", {})
+        if t.t[t.i] == "err":
+            t.next()
+            res["ev"]["err"] = k + ":" + t.next()
+        elif k == "ev":
+            res["ev"]["rhs"], res["ev"]["out"] = read_mat(t), read_mat(t)
+        else:
+            res["ev"]["X"], res["ev"]["Y"] = read_mat(t), read_mat(t)
     return res
 
 
@@ -563,7 +692,25 @@ def dims(s):
     return len(inl), len(outl)
 
 
-GAINS = [1, 1, 1, -1, -1, 2, -2, 3, 0.5, -0.5]
+# an explicit gain of zero (a (sys, sig, 0) entry written out of a gain matrix) is a gain like any
+# other: the source contributes nothing
+GAINS = [1, 1, 1, -1, -1, 2, -2, 3, 0.5, -0.5, 0, 0.0]
+
+
+def gwrap(rng, g):
+    """the gain `g` as the caller may hold it: Python int / float, -0.0, or a NumPy scalar
+    (an entry `F[i, j]` of an integer / float64 / float32 array)"""
+    q = Fraction(g)
+    r = rng.random()
+    if r < 0.5:
+        return g
+    if r < 0.62:
+        return -0.0 if q == 0 else float(g)
+    if r < 0.82:
+        return NpNum("float64", -0.0 if (q == 0 and rng.random() < 0.3) else float(g))
+    if r < 0.92 and q.denominator == 1:
+        return NpNum(rng.choice(["int64", "int32"]), int(q))
+    return NpNum("float32", float(g))
 
 
 def gen_wiring(rng, systems, loops=False):
@@ -701,9 +848,9 @@ def render_ref(rng, systems, a, idxs, g, kind, allow_gain=True):
     name = s["name"]
     opts = []
     sysr = rng.choice([a, name])
-    gl = [] if g == 1 and rng.random() < 0.7 else [g]
+    gl = [] if g == 1 and rng.random() < 0.7 else [gwrap(rng, g)]
     if not allow_gain:
-        gl = [] if rng.random() < 0.8 else [1]
+        gl = [] if rng.random() < 0.8 else [gwrap(rng, 1)]
     if len(idxs) == 1:
         i = idxs[0]
         lab = labels[i]
@@ -732,7 +879,7 @@ def render_ref(rng, systems, a, idxs, g, kind, allow_gain=True):
         if g == 1:
             opts.extend([a, name, (sysr,), (sysr, None)])
         elif allow_gain:
-            opts.append((sysr, None, g))
+            opts.append((sysr, None, gwrap(rng, g)))
             if g == -1:
                 opts.append("-" + name)
                 opts.append(("-" + name,))
@@ -794,7 +941,7 @@ def random_call(rng, systems, w):
                     else:
                         lab = labels_of(systems[b], "u")[i]
                         nm = systems[b]["name"]
-                        forms = [(nm, lab, g), (b, lab, g)]
+                        forms = [(nm, lab, gwrap(rng, g)), (b, lab, gwrap(rng, g))]
                         if g == 1:
                             forms += ["%s.%s" % (nm, lab), (nm, lab), (b, [lab])]
                         if g == -1:
@@ -951,7 +1098,7 @@ def gen_malformed(rng, tier):
             for k, v in case["calls"][0].items()}
     ns = len(systems)
     kind = rng.choice(["sig-hi", "sig-hi", "sig-neg", "sys-hi", "sys-neg", "sys-name", "sig-name",
-                       "gain-twice", "gain-input", "len", "dots", "tuple4", "out-hi", "out-hi",
+                       "gain-twice", "gain-input", "gain-inplist", "len", "dots", "tuple4", "out-hi", "out-hi",
                        "inp-hi", "inp-neg", "bare-unknown", "sig-hi-next", "names-list", "names-list",
                        "slice-empty"])
     conns = call["connections"]
@@ -976,12 +1123,19 @@ def gen_malformed(rng, tier):
                                  ["%s.nosuch" % systems[b]["name"], (a, 0)],
                                  [(nm(b), 0), "%s.nosuch[0:2]" % systems[a]["name"]]]))
     elif kind == "gain-twice":
-        conns.append([(b, 0), rng.choice([("-" + systems[a]["name"], 0, 2),
-                                          (systems[a]["name"], "-" + labels_of(systems[a], "y")[0], 2),
+        conns.append([(b, 0), rng.choice([("-" + systems[a]["name"], 0, rng.choice([2, 0])),
+                                          (systems[a]["name"], "-" + labels_of(systems[a], "y")[0],
+                                           rng.choice([2, 0.0])),
                                           ("-" + systems[a]["name"], "-" + labels_of(systems[a], "y")[0])])])
     elif kind == "gain-input":
-        conns.append([rng.choice([(b, 0, 2), "-%s.%s" % (systems[b]["name"], labels_of(systems[b], "u")[0])]),
+        # any gain other than 1 on the input side of a connection, an explicit zero included
+        conns.append([rng.choice([(b, 0, rng.choice([2, 0, 0.0, -1, 0.5, NpNum("float64", 0.0)])),
+                                  "-%s.%s" % (systems[b]["name"], labels_of(systems[b], "u")[0])]),
                       (a, 0)])
+    elif kind == "gain-inplist":
+        # idem in `inplist` (also inside a list that sums)
+        ent = (nm(b), rng.randrange(nin_b), rng.choice([2, 0, 0.0, -1, NpNum("int64", 0)]))
+        call["inplist"] = list(call["inplist"]) + [rng.choice([ent, [ent], [(nm(a), 0), ent]])]
     elif kind == "len":
         if nin_b < 2:
             conns.append([(b, [0, 0]), (a, 0)])
@@ -1137,17 +1291,93 @@ def gen_idxlist(rng, tier):
     return {"tag": "idxlist", "mal": "list-%s@%s" % (kind, site), "sys": systems, "calls": [call]}
 
 
+def gen_gainmat(rng, tier):
+    """static output feedback / output mixing written entry by entry from gain matrices that
+    contain zeros: `[(sys, j)] + [(sys_a, i, F[j][i]) for every output i]` — the zero entries are
+    listed too, as Python / NumPy zeros of any type (also where a non-zero gain would close an
+    algebraic loop: a zero entry connects nothing); the second spelling leaves them out"""
+    ns = rng.choice([1, 1, 2, 2, 3])
+    names = rng.sample(NAMES, ns)
+    systems = [gen_system(rng, nm, rng.choice(["idx", "named", "mixed"]), nl=rng.random() < 0.25)
+               for nm in names]
+    rank = list(range(ns))
+    rng.shuffle(rank)
+    ins = [(b, j) for b in range(ns) for j in range(dims(systems[b])[0])]
+    outs = [(a, i) for a in range(ns) for i in range(dims(systems[a])[1])]
+    pz = rng.choice([0.3, 0.5, 0.7])
+    NZ = [g for g in GAINS if g != 0]
+
+    def ref(a, i, kind):
+        return (rng.choice([a, systems[a]["name"]]), rng.choice([i, labels_of(systems[a], kind)[i]]))
+    conns0, conns1 = [], []
+    for (b, j) in rng.sample(ins, rng.randint(1, len(ins))):
+        row0, row1 = [], []
+        for (a, i) in outs:
+            if rng.random() < 0.25:
+                continue                    # pair not in the matrix at all
+            loopfree = rank[a] < rank[b] or d_zero(systems[a])
+            g = rng.choice(NZ) if (loopfree and rng.random() >= pz) else 0
+            row0.append(ref(a, i, "y") + (gwrap(rng, g),))
+            if g != 0:
+                row1.append(render_ref(rng, systems, a, [i], g, "y"))
+        if row0:
+            conns0.append([ref(b, j, "u")] + row0)
+        if row1:
+            conns1.append([render_ref(rng, systems, b, [j], 1, "u", allow_gain=False)] + row1)
+    out0, out1 = [], []
+    for _ in range(rng.randint(1, 3)):
+        row0, row1 = [], []
+        cand = [("y", a, i) for (a, i) in outs]
+        for (b, j) in ins:
+            lab = labels_of(systems[b], "u")[j]
+            if not input_used_as_output_ambiguous(systems, {"out": [{"k": "sum", "t": [("u", b, j, 1)]}]}):
+                cand.append(("u", b, j))
+        for (kind, a, i) in rng.sample(cand, rng.randint(1, min(4, len(cand)))):
+            g = 0 if rng.random() < pz else rng.choice(NZ)
+            if kind == "y":
+                row0.append(ref(a, i, "y") + (gwrap(rng, g),))
+                if g != 0:
+                    row1.append(render_ref(rng, systems, a, [i], g, "y"))
+            else:
+                row0.append((systems[a]["name"], labels_of(systems[a], "u")[i], gwrap(rng, g)))
+                if g != 0:
+                    row1.append((systems[a]["name"], labels_of(systems[a], "u")[i], g))
+        out0.append(row0)
+        out1.append(row1)
+    inp = []
+    for _ in range(rng.randint(1, 2)):
+        inp.append([rng.choice(ins) for _ in range(rng.choice([1, 1, 2]))])
+    inp1 = [[render_ref(rng, systems, b, [j], 1, "u", allow_gain=False) for (b, j) in e] for e in inp]
+    c0 = {"connections": enc(conns0) if conns0 else False, "inplist": enc(inp), "outlist": enc(out0)}
+    c1 = {"connections": enc(conns1) if conns1 else False, "inplist": enc(inp1), "outlist": enc(out1)}
+    return {"tag": "gainmat", "sys": systems, "calls": [c0, c1]}
+
+
 # ---- operator forms
 
 OPNAMES = ["F", "G", "H", "Q1", "R2", "Wn"]
-SIGNS = ["-1", "-1", "-1", "1", "1", "2", "-2", "1/2"]
+SIGNS = ["-1", "-1", "-1", "1", "1", "2", "-2", "1/2", "0", "0"]
+
+
+_BAG = {}
+
+
+def bag_draw(rng, key, items):
+    """draw from a shuffled copy of `items` without replacement, refilled when empty: every value
+    occurs once in every len(items) draws (a rare value cannot be missed by a whole run);
+    emptied at the start of `generate`"""
+    b = _BAG.setdefault(key, [])
+    if not b:
+        b.extend(items)
+        rng.shuffle(b)
+    return b.pop()
 
 
 def gen_op_leaf(rng, systems, m, p, allow, proper=False):
     kinds = [k for k in allow if k != "num" or (m == 1 and p == 1)]
     k = rng.choice(kinds)
     if k == "num":
-        return {"o": "num", "v": rng.choice(["2", "-1", "3", "1/2", "-2", "1", "-1/2"])}
+        return {"o": "num", "v": rng.choice(["2", "-1", "3", "1/2", "-2", "1", "-1/2", "0"])}
     if k == "arr":
         return {"o": "arr", "M": rand_mat(rng, p, m, zero=0.2)}
     if systems and rng.random() < 0.12:
@@ -1225,7 +1455,7 @@ def gen_op_tree(rng, systems, m, p, depth, allow, st):
         b = gen_op_leaf(rng, systems, p2, m2, ballow, proper=True)
     else:
         b = gen_op_tree(rng, systems, p2, m2, d2, ballow, st)
-    return {"o": "fb", "a": a, "b": b, "sign": rng.choice(SIGNS)}
+    return {"o": "fb", "a": a, "b": b, "sign": bag_draw(rng, "sign", SIGNS)}
 
 
 def gen_op(rng, tier):
@@ -1248,6 +1478,76 @@ def gen_op(rng, tier):
         calls.append({"op": tree, "via": "function"})
     return {"tag": "op", "sys": systems, "calls": calls,
             "opinfo": {"top": tree["o"], "square": m == p, "spoiled": spoiled and not st["mismatch"]}}
+
+
+# ---- evaluation of the interconnected system (number types of the state / input)
+
+POOL = 16
+DYADIC = ["1", "1", "1/2", "1/2", "1/4", "3/4", "3/2", "-1/2"]
+
+
+def dyadic_data(rng, systems):
+    """scale every entry of A, B, C, D by a dyadic factor (zero pattern unchanged): the values the
+    interconnection computes are then not integers even at integer states"""
+    out = []
+    for s in systems:
+        if "sj" in s:
+            out.append(s)
+            continue
+        s2 = dict(s)
+        for key in ("A", "B", "C", "D"):
+            s2[key] = [[str(Fraction(x) * Fraction(rng.choice(DYADIC))) for x in r] for r in s[key]]
+        out.append(s2)
+    return out
+
+
+def gen_pool(rng, typ):
+    if typ in INT_T:
+        return [str(rng.randint(-3, 3)) for _ in range(POOL)]
+    return [str(Fraction(rng.randint(-8, 8), rng.choice([1, 2, 4]))) for _ in range(POOL)]
+
+
+def gen_ntype(rng, pint=0.6):
+    return rng.choice(INT_T + ["int"]) if rng.random() < pint else rng.choice(FLT_T)
+
+
+def attach_eval(rng, case, tier):
+    """evaluate the interconnected system each call builds: `dynamics` / `output` at 2-3 points,
+    `linearize` at one of them, and (discrete time) a simulated response — the state and the input
+    given as Python ints, tuples, integer arrays (int64 / int32) or floats (list, float64,
+    float32); subsystem data dyadic so that the results are not integers"""
+    if rng.random() < 0.75:
+        case["sys"] = dyadic_data(rng, case["sys"])
+        for c in case["calls"]:
+            if "sys" in c:
+                return
+    dt = rng.choice([0, 0, 1, 1, 1, "1/2", "1/4", True])
+    pts = []
+    for _ in range(rng.choice([2, 2, 3])):
+        xt, ut = gen_ntype(rng), gen_ntype(rng, 0.5)
+        pts.append({"x": gen_pool(rng, xt), "xt": xt, "u": gen_pool(rng, ut), "ut": ut})
+    ev = {"dt": dt, "pts": pts}
+    if rng.random() < 0.6:
+        ev["linpt"] = rng.randrange(len(pts))
+    if dt != 0:
+        xt, ut = gen_ntype(rng, 0.7), gen_ntype(rng, 0.5)
+        N = rng.randint(3, 6)
+        ev["traj"] = {"x0": gen_pool(rng, xt), "xt": xt, "ut": ut,
+                      "U": [gen_pool(rng, ut)[:8] for _ in range(N)]}
+    for c in case["calls"]:
+        c["ev"] = ev
+    case["evinfo"] = {"dt": "cont" if dt == 0 else "disc"}
+
+
+EVAL_TAGS = {"explicit": 0.3, "nl": 0.6, "implicit": 0.3, "loops": 0.3, "gainmat": 0.4, "op": 0.4}
+
+
+def relclose(a, b, rel):
+    """|a - b| <= rel * (1 + max|b|), entry by entry (a: implementation, b: model)"""
+    if [len(r) for r in a] != [len(r) for r in b]:
+        return False
+    scale = 1 + max([abs(x) for r in b for x in r] or [0])
+    return all(abs(x - y) <= rel * scale for ra, rb in zip(a, b) for x, y in zip(ra, rb))
 
 
 OWNED = {
@@ -1304,9 +1604,16 @@ class C07(Family):
     assumptions = [
         "system names and signal labels are distinct, non-empty, free of whitespace, '.', '$' and "
         "a leading '-'; labels have the form \\w+ or \\w+[\\d+]",
-        "subsystems are StateSpace objects (or NonlinearIOSystem wrappers of linear dynamics) in "
-        "continuous time with small integer data; the numerical differentiation of "
-        "LinearICSystem is compared with the exact derivative within 1e-8",
+        "subsystems are StateSpace objects (or NonlinearIOSystem wrappers of linear dynamics) with "
+        "small integer data, in continuous time; in the evaluation stream small dyadic data "
+        "(multiples of 1/4) and a common timebase 0 / 1 / 1/2 / 1/4 / True; the numerical "
+        "differentiation of LinearICSystem is compared with the exact derivative within 1e-8",
+        "evaluation stream: states / inputs are integers in [-3, 3] or multiples of 1/4 in [-8, 8], "
+        "so that every floating-point operation of a correct implementation is exact; dynamics(), "
+        "output() and the simulated response are compared with relative tolerance 1e-9, "
+        "linearize() at a non-zero point within 1e-3 * max(1, |f(x0, u0)|) (finite differences "
+        "with eps = 1e-6); the timebase is the implementation's only (the model iterates "
+        "x+ = _rhs); continuous-time simulation (solve_ivp) is not compared",
         "a feedthrough cycle whose propagation happens to terminate in exact arithmetic "
         "(nilpotent loop gain) is not compared",
         "add_unused: the order of the appended signals (iteration order of a Python set) is not "
@@ -1331,7 +1638,16 @@ class C07(Family):
             "random position); an operator stream (trees of + - * / unary - .feedback and "
             "ct.parallel/series/negate/feedback over NonlinearIOSystem, StateSpace, number and array "
             "operands of non-square sizes, nested 1-3 deep, incompatible sizes in 15%; written with "
-            "operators and with the bdalg functions)")
+            "operators and with the bdalg functions; feedback signs and number operands include 0); "
+            "gains include explicit zeros (0, 0.0, -0.0) and are written as Python ints / floats or "
+            "NumPy scalars (int64, int32, float64, float32), also gain 1 on input specs and gain 0 / "
+            "other gains on input specs (must raise); a gain-matrix stream (connections and outlist "
+            "written entry by entry from matrices containing zeros, vs the spelling that omits the "
+            "zero entries); an evaluation stream on ~20% of the valid cases (explicit, nonlinear "
+            "wrappers, implicit, loops, gain-matrix, operator trees): dynamics()/output() at 2-3 "
+            "points, linearize() at one of them, discrete-time input_output_response over 3-6 steps, "
+            "state and input each held as list of Python ints / tuple / int64 / int32 array / list of "
+            "floats / float64 / float32 array, dyadic subsystem data")
 
     def corpus(self):
         return [OWNED]
@@ -1339,26 +1655,31 @@ class C07(Family):
     def generate(self, rng, tier):
         n = 560 if tier == "quick" else 3800
         out = []
+        _BAG.clear()
         while len(out) < n:
             r = rng.random()
-            if r < 0.32:
+            if r < 0.30:
                 c = gen_explicit(rng, tier)
-            elif r < 0.43:
+            elif r < 0.41:
                 c = gen_implicit(rng, tier)
-            elif r < 0.49:
+            elif r < 0.47:
                 c = gen_explicit(rng, tier, nl=True)
-            elif r < 0.55:
+            elif r < 0.53:
                 c = gen_explicit(rng, tier, loops=True)
-            elif r < 0.59:
+            elif r < 0.57:
                 c = gen_edge(rng, tier)
-            elif r < 0.73:
+            elif r < 0.70:
                 c = gen_idxlist(rng, tier)
-            elif r < 0.86:
+            elif r < 0.75:
+                c = gen_gainmat(rng, tier)
+            elif r < 0.87:
                 c = gen_op(rng, tier)
             else:
                 c = gen_malformed(rng, tier)
             if c is None:
                 continue
+            if rng.random() < EVAL_TAGS.get(c.get("tag"), 0):
+                attach_eval(rng, c, tier)
             try:
                 self.line(c)
             except Untokenisable:
@@ -1423,6 +1744,53 @@ class C07(Family):
                     feat.update(kind="lin", which=key)
                     return Verdict(VIOLATES, "%s differs: impl %s model %s"
                                    % (key, im["lin"][key], mo["lin"][key]), feat)
+        ev = case["calls"][k].get("ev")
+        if ev and "lin" in mo and "lin" in im:
+            return self.compare_eval(ev, im.get("ev") or {}, mo.get("ev") or {}, mo, feat)
+        return None
+
+    def compare_eval(self, ev, ie, me, mo, feat):
+        """the evaluations of one call: implementation `ie`, model `me`"""
+        feat = dict(feat, dt="cont" if ev["dt"] == 0 else "disc")
+        if "err" in me or ("pts" in ev and "rhs" not in me) or ("traj" in ev and "X" not in me):
+            return Verdict(DIFFERS, "model evaluation: %s" % me, dict(feat, kind="eval-model"))
+        if "err" in ie:
+            src = ev["traj"] if ie["err"] == "traj" else ev["pts"][ev["linpt"] if ie["err"] == "linpt" else 0]
+            feat.update(kind="eval-raises", stage=ie["err"], exc=ie["exc"], msg=ie["msg"],
+                        xt=src["xt"], ut=src["ut"])
+            return Verdict(VIOLATES, "evaluation of the interconnected system raises (%s): %s: %s"
+                           % (ie["err"], ie["exc"], ie["msg"]), feat)
+        if ev.get("pts"):
+            for which in ("rhs", "out"):
+                a, b = F(ie[which]), F(me[which])
+                for j, p in enumerate(ev["pts"]):
+                    ca, cb = [[r[j]] for r in a], [[r[j]] for r in b]
+                    if not relclose(ca, cb, Fraction(1, 10 ** 9)):
+                        feat.update(kind="eval", which=which, xt=p["xt"], ut=p["ut"])
+                        return Verdict(VIOLATES, "%s at point %d (state as %s, input as %s): impl %s model %s"
+                                       % ("dynamics()" if which == "rhs" else "output()", j, p["xt"], p["ut"],
+                                          [str(r[0]) for r in ca], [str(r[0]) for r in cb]), feat)
+        if ev.get("linpt") is not None and "linpt" in ie:
+            j = ev["linpt"]
+            p = ev["pts"][j]
+            scale = max([1] + [abs(r[j]) for r in F(me["rhs"])] + [abs(r[j]) for r in F(me["out"])])
+            for key in ("A", "B", "C", "D"):
+                a, b = F(ie["linpt"][key]), F(mo["lin"][key])
+                if [len(r) for r in a] != [len(r) for r in b] or \
+                        not exmat.close(a, b, Fraction(1, 1000) * scale):
+                    feat.update(kind="eval", which="linearize-" + key, xt=p["xt"], ut=p["ut"])
+                    return Verdict(VIOLATES, "linearize at point %d (state as %s, input as %s): %s impl %s model %s"
+                                   % (j, p["xt"], p["ut"], key, ie["linpt"][key], mo["lin"][key]), feat)
+        if ev.get("traj") and "Y" in ie:
+            tr = ev["traj"]
+            for which in ("X", "Y"):
+                if which not in ie:
+                    continue
+                if not relclose(F(ie[which]), F(me[which]), Fraction(1, 10 ** 9)):
+                    feat.update(kind="eval", which="traj-" + which, xt=tr["xt"], ut=tr["ut"])
+                    return Verdict(VIOLATES, "discrete-time response (X0 as %s, U as %s): %s impl %s model %s"
+                                   % (tr["xt"], tr["ut"], "states" if which == "X" else "outputs",
+                                      ie[which], me[which]), feat)
         return None
 
     def compare(self, case, impl, model):
@@ -1458,6 +1826,14 @@ class C07(Family):
                                  if t["o"] not in ("sys", "num", "arr"))
         if "lin" in m:
             st["states"] = min(m["lin"]["n"], 6)
+        ev = case["calls"][-1].get("ev")
+        if ev:
+            st["eval"] = case.get("evinfo", {}).get("dt", "?") + ("+traj" if ev.get("traj") else "") \
+                + ("+linpt" if ev.get("linpt") is not None else "")
+            kinds = {"int" if p["xt"] in INT_T else "float" for p in ev["pts"]}
+            st["eval_xt"] = "+".join(sorted(kinds))
+            if ev.get("traj"):
+                st["traj_x0"] = "int" if ev["traj"]["xt"] in INT_T else "float"
         if "err" not in m:
             st["connected"] = sum(1 for r in m["cm"] for x in r if Fraction(x) != 0) > 0
         return st
@@ -1480,6 +1856,35 @@ class C07(Family):
                     c["calls"] = [dict(call, op=sub)]
                     c["opinfo"] = dict(case["opinfo"], top=sub["o"])
                     out.append(c)
+        ev = calls[0].get("ev")
+        if ev:
+            cands = []
+            if ev.get("traj"):
+                cands.append({k2: v for k2, v in ev.items() if k2 != "traj"})
+                if len(ev["traj"]["U"]) > 2:
+                    cands.append(dict(ev, traj=dict(ev["traj"], U=ev["traj"]["U"][:-1])))
+            if ev.get("linpt") is not None:
+                cands.append({k2: v for k2, v in ev.items() if k2 != "linpt"})
+            if len(ev.get("pts", [])) > 1:
+                for j in range(len(ev["pts"])):
+                    e2 = dict(ev, pts=[ev["pts"][j]])
+                    if ev.get("linpt") is not None:
+                        e2["linpt"] = 0 if ev["linpt"] == j else None
+                    cands.append(e2)
+            # shorter value pools (entries beyond the end of a pool are 0)
+            L = max([len(p["x"]) for p in ev.get("pts", [])] + [len(p["u"]) for p in ev.get("pts", [])]
+                    + ([len(ev["traj"]["x0"])] if ev.get("traj") else []) + [0])
+            if L > 1:
+                cut = lambda v: v[:L // 2]
+                e2 = dict(ev, pts=[dict(p, x=cut(p["x"]), u=cut(p["u"])) for p in ev.get("pts", [])])
+                if ev.get("traj"):
+                    e2["traj"] = dict(ev["traj"], x0=cut(ev["traj"]["x0"]),
+                                      U=[cut(u) if len(u) > L // 2 else u for u in ev["traj"]["U"]])
+                cands.append(e2)
+            for e2 in cands:
+                c = dict(case)
+                c["calls"] = [dict(cl, ev=e2) for cl in calls]
+                out.append(c)
         for ci, call in enumerate(calls):
             for key in ("connections", "inplist", "outlist"):
                 v = call.get(key)
